@@ -30,15 +30,15 @@ def refObj (o : Sess) (oldID newID : ID) (now : Int) : Sess :=
   { id := oldID, created := o.created, lastAccess := now, ip := o.ip, ua := o.ua, ref := some newID, data := none }
 
 /-- `s.RegenerateID(response)`. The Boolean is false when one of the two saves failed. -/
-def regenerate (cfg : Cfg) (picks : List ID) (s : State) (h : Nat) : State × Bool × List Ev :=
+def regenerate (cfg : Cfg) (s : State) (h : Nat) : State × Bool × List Ev :=
   let o := s.obj h
   let oldID := o.id
   let newID := ID.gen s.nextId
   let s0 := { s.setObj h { o with id := newID, created := s.now } with nextId := s.nextId + 1 }
-  let (s1, ok1, e1) := cacheSet cfg picks s0 h
+  let (s1, ok1, e1) := cacheSet cfg s0 h
   if !ok1 then (s1, false, e1) else
   let (hr, s2) := s1.alloc (refObj (s1.obj h) oldID newID s1.now)
-  let (s3, ok3, e3) := cacheSet cfg picks s2 hr
+  let (s3, ok3, e3) := cacheSet cfg s2 hr
   if !ok3 then (s3, false, e1 ++ e3) else
   ({ s3 with timers := s3.timers ++ [(s3.now + cfg.grace, oldID)] }, true, e1 ++ e3 ++ [.setCookie newID])
 
@@ -56,12 +56,12 @@ def destroy (s : State) (h : Nat) (hasCookie : Bool) : State × Bool × List Ev 
 def touch (s : State) (h : Nat) (r : Req) : State :=
   s.setObj h { s.obj h with lastAccess := s.now, ip := r.ip, ua := agentHash r.ua }
 
-def createNew (cfg : Cfg) (picks : List ID) (s : State) (r : Req) (pre : List Ev) : State × Res × List Ev :=
+def createNew (cfg : Cfg) (s : State) (r : Req) (pre : List Ev) : State × Res × List Ev :=
   if !r.create then (s, .nil, pre) else
   let id := ID.gen s.nextId
   let (h, s1) := { s with nextId := s.nextId + 1 }.alloc
     { id := id, created := s.now, lastAccess := s.now, ip := r.ip, ua := agentHash r.ua }
-  let (s2, ok, e2) := cacheSet cfg picks s1 h
+  let (s2, ok, e2) := cacheSet cfg s1 h
   if !ok then (s2, .err "create", pre ++ e2)
   else (s2, .sess h, pre ++ e2 ++ [.setCookie id])
 
@@ -70,26 +70,26 @@ def validFor (cfg : Cfg) (now : Int) (o : Sess) (r : Req) : Bool :=
   !(since now o.lastAccess ≥ cfg.sessionExpiry) && ipOK cfg o.ip r.ip && uaOK cfg o.ua (agentHash r.ua)
 
 /-- Following the reference chain from the object `h` (which is a reference record). -/
-def follow (cfg : Cfg) (picks : List ID) : Nat → State → Nat → State × GetRes × List Ev
+def follow (cfg : Cfg) : Nat → State → Nat → State × GetRes × List Ev
   | 0, s, _ => (s, .nil, [])
   | fuel+1, s, h =>
     match (s.obj h).ref with
     | none => (s, .some h, [])
     | some tgt =>
-      match cacheGet cfg picks s tgt with
+      match cacheGet cfg s tgt with
       | (s1, .err, e1) => (s1, .err, e1)
       | (s1, .nil, e1) => (s1, .nil, e1)
       | (s1, .some h2, e1) =>
-        let (s2, r2, e2) := follow cfg picks fuel s1 h2
+        let (s2, r2, e2) := follow cfg fuel s1 h2
         (s2, r2, e1 ++ e2)
 
 /-- everything `Start` does once a valid object `h` was found under the presented id `id`. -/
-def startValid (cfg : Cfg) (picks : List ID) (s1 : State) (id : ID) (h : Nat) (r : Req) (e1 : List Ev) :
+def startValid (cfg : Cfg) (s1 : State) (id : ID) (h : Nat) (r : Req) (e1 : List Ev) :
     State × Res × List Ev :=
   let o := s1.obj h
   let age := since s1.now o.created
   if o.ref.isNone && age ≥ cfg.idExpiry then
-    let (s2, ok, e2) := regenerate cfg picks s1 h
+    let (s2, ok, e2) := regenerate cfg s1 h
     if !ok then (s2, .err "regenerate", e1 ++ e2)
     else (touch s2 h r, .sess h, e1 ++ e2)
   else if age ≥ cfg.idExpiry && age - cfg.idExpiry ≥ cfg.grace then
@@ -99,26 +99,26 @@ def startValid (cfg : Cfg) (picks : List ID) (s1 : State) (id : ID) (h : Nat) (r
   else
     match o.ref with
     | some _ =>
-      match follow cfg picks (s1.store.length + s1.cache.length + 1) s1 h with
+      match follow cfg (s1.store.length + s1.cache.length + 1) s1 h with
       | (s2, .err, e2) => (s2, .err "refget", e1 ++ e2)
       | (s2, .nil, e2) => (s2, .err "refmissing", e1 ++ e2)
       | (s2, .some h2, e2) => (touch s2 h2 r, .sess h2, e1 ++ e2 ++ [.setCookie (s2.obj h2).id])
     | none => (touch s1 h r, .sess h, e1)
 
-def start (cfg : Cfg) (picks : List ID) (s : State) (r : Req) : State × Res × List Ev :=
+def start (cfg : Cfg) (s : State) (r : Req) : State × Res × List Ev :=
   match r.cookie with
-  | none => createNew cfg picks s r []
+  | none => createNew cfg s r []
   | some id =>
-    if r.cookieLen != 24 then createNew cfg picks s r [] else
-    match cacheGet cfg picks s id with
+    if r.cookieLen != 24 then createNew cfg s r [] else
+    match cacheGet cfg s id with
     | (s1, .err, e1) => (s1, .err "get", e1)
-    | (s1, .nil, e1) => createNew cfg picks s1 r (e1 ++ [.delCookie])
+    | (s1, .nil, e1) => createNew cfg s1 r (e1 ++ [.delCookie])
     | (s1, .some h, e1) =>
       if !validFor cfg s1.now (s1.obj h) r then
         let (s2, ok, e2) := destroy s1 h true
         if !ok then (s2, .err "destroy", e1 ++ e2)
-        else createNew cfg picks s2 r (e1 ++ e2)
-      else startValid cfg picks s1 id h r e1
+        else createNew cfg s2 r (e1 ++ e2)
+      else startValid cfg s1 id h r e1
 
 /-! ### key/value operations -/
 
@@ -174,54 +174,54 @@ def userSessions (le : ID → ID → Bool) (s : State) (uid : String) : List ID 
   (a ++ b.filter (fun i => !a.contains i)).eraseDups.mergeSort le
 
 /-- the loop of `LogOut(uid)` / `RefreshUser(user)`: set `u` in every listed session that exists. -/
-def setUserAll (cfg : Cfg) (picks : List ID) (u : Option (String × Nat)) : List ID → State → State × Bool × List Ev
+def setUserAll (cfg : Cfg) (u : Option (String × Nat)) : List ID → State → State × Bool × List Ev
   | [], s => (s, true, [])
   | id :: rest, s =>
-    match cacheGet cfg picks s id with
+    match cacheGet cfg s id with
     | (s1, .err, e1) => (s1, false, e1)
     | (s1, .nil, e1) =>
-      let (s2, ok, e2) := setUserAll cfg picks u rest s1
+      let (s2, ok, e2) := setUserAll cfg u rest s1
       (s2, ok, e1 ++ e2)
     | (s1, .some h, e1) =>
       let s2 := s1.setObj h { s1.obj h with user := u }
-      let (s3, ok, e3) := cacheSet cfg picks s2 h
+      let (s3, ok, e3) := cacheSet cfg s2 h
       if !ok then (s3, false, e1 ++ e3)
       else
-        let (s4, ok4, e4) := setUserAll cfg picks u rest s3
+        let (s4, ok4, e4) := setUserAll cfg u rest s3
         (s4, ok4, e1 ++ e3 ++ e4)
 
 /-- `Persistence.UserSessions(uid)` followed by the loop. -/
-def forUser (cfg : Cfg) (picks : List ID) (le : ID → ID → Bool) (s : State) (uid : String) (u : Option (String × Nat)) :
+def forUser (cfg : Cfg) (le : ID → ID → Bool) (s : State) (uid : String) (u : Option (String × Nat)) :
     State × Bool × List Ev :=
   let (f, s0) := popFail s
   if f then (s0, false, [.usersFail uid])
   else
-    let (s1, ok, e1) := setUserAll cfg picks u (userSessions le s0 uid) s0
+    let (s1, ok, e1) := setUserAll cfg u (userSessions le s0 uid) s0
     (s1, ok, .users uid :: e1)
 
 /-- `LogOut(userID)`. -/
-def logoutUser (cfg : Cfg) (picks : List ID) (le : ID → ID → Bool) (s : State) (uid : String) : State × Bool × List Ev :=
-  forUser cfg picks le s uid none
+def logoutUser (cfg : Cfg) (le : ID → ID → Bool) (s : State) (uid : String) : State × Bool × List Ev :=
+  forUser cfg le s uid none
 
 /-- `RefreshUser(user)` with a new version of the user object. -/
-def refreshUser (cfg : Cfg) (picks : List ID) (le : ID → ID → Bool) (s : State) (uid : String) : State × Bool × List Ev :=
+def refreshUser (cfg : Cfg) (le : ID → ID → Bool) (s : State) (uid : String) : State × Bool × List Ev :=
   let v := s.ver uid + 1
   let s0 := { s with vers := insert uid v s.vers }
-  forUser cfg picks le s0 uid (some (uid, v))
+  forUser cfg le s0 uid (some (uid, v))
 
 /-- `s.LogIn(user, exclusive, response)`. -/
-def hlogin (cfg : Cfg) (picks : List ID) (le : ID → ID → Bool) (s : State) (h : Nat) (uid : String) (excl : Bool) :
+def hlogin (cfg : Cfg) (le : ID → ID → Bool) (s : State) (h : Nat) (uid : String) (excl : Bool) :
     State × HRes × List Ev :=
   let (s1, ok1, e1) :=
-    if excl then logoutUser cfg picks le s uid
+    if excl then logoutUser cfg le s uid
     else
       let (s', _, e') := hlogout cfg s h
       (s', true, e')
   if !ok1 then (s1, .err, e1) else
   let s2 := s1.setObj h { s1.obj h with user := some (uid, s1.ver uid) }
-  let (s3, ok3, e3) := cacheSet cfg picks s2 h
+  let (s3, ok3, e3) := cacheSet cfg s2 h
   if !ok3 then (s3, .err, e1 ++ e3) else
-  let (s4, ok4, e4) := regenerate cfg picks s3 h
+  let (s4, ok4, e4) := regenerate cfg s3 h
   (s4, hres ok4, e1 ++ e3 ++ e4)
 
 /-! ### Expired -/
